@@ -89,9 +89,16 @@ def top_nodes(proto):
 
 
 def inlinable(t: onnx.TensorProto) -> bool:
-    if t.data_type not in (TP.FLOAT, TP.INT64):
+    if t.data_type not in (TP.FLOAT, TP.INT64) or 0 in t.dims:
         return False
-    return len(t.dims) == 0 or (len(t.dims) == 1 and t.dims[0] < 5)
+    if not (len(t.dims) == 0 or (len(t.dims) == 1 and t.dims[0] < 5)):
+        return False
+    return bool(L.tensor_finite(t))
+
+
+# dtypes `generate_rand` accepts since 7dcad6a (FLOAT, INT8, FLOAT16, DOUBLE, the integer types, BOOL)
+RAND_OK = (TP.FLOAT, TP.INT8, TP.FLOAT16, TP.DOUBLE, TP.UINT8, TP.UINT16, TP.INT16, TP.INT32, TP.INT64, TP.UINT32,
+           TP.UINT64, TP.BOOL)  # fmt: skip
 
 
 def facts(proto, opts) -> dict:
@@ -113,14 +120,11 @@ def facts(proto, opts) -> dict:
             size = int(np.prod(list(t.dims))) if t.dims else 1
             if opts["skip_initializers"] and size > 4:
                 has_big = True
-                if t.data_type not in (TP.FLOAT, TP.INT8):
+                if t.data_type not in RAND_OK:
                     big_nonfloat = True
                 continue
             if inlinable(t):
-                if py_norm(t.name) != t.name:
-                    init_bad = True
-                else:
-                    consts[t.name] = t
+                consts[t.name] = t
     nonref: set = set()
 
     def visit_graph_outputs(g):
@@ -185,6 +189,8 @@ def unbound_names(prog: list[str]) -> list[str]:
         if ln.startswith("wrap "):
             defined.update(ln[5:].split(","))
             continue
+        if ln.startswith("deco "):
+            continue
         if ln.startswith("sig "):
             inner = ln[ln.index("(") + 1 : -1]
             a, b = inner.split("|")
@@ -228,47 +234,23 @@ def unbound_names(prog: list[str]) -> list[str]:
 
 
 def classify(stage: str, case: dict, opts: dict, mprog: list[str] | None, mres: str) -> str | None:
-    """The known finding whose predicate contains this failing (case, options), if any."""
+    """The OPEN known finding whose predicate contains this failing (case, options), if any.
+    Fixed findings (D14, RENAME-SIG, NANINF, EMPTYLIST, POW-NEG, ATTR-INPUT-CLASH, SKIP-RAND, FOR-MAIN, SKIP-INDENT,
+    OPS-NO-OPSET)
+    have no predicate any more: a failure there is a VIOLATION again."""
     f = case["facts"][L.opts_str(opts)]
-    isM = case["kind"] == "M"
     ub = unbound_names(mprog) if mprog else []
     if stage == "export":
-        # (C13-FOR-MAIN was here: fixed by e68372f — an IndexError on a Loop is a violation again)
         if opts["skip_initializers"] and f["big_nonfloat"] and mres == "ERR:NotImplementedError":
-            return "C13-SKIP-RAND"
-        if f["collide"] and opts["skip_initializers"] and mres == "ERR:RuntimeError":
-            return "D14"
+            return "C13-SKIP-RAND-REST"
         return None
-    if mprog and not isM:
-        sig = next((ln for ln in mprog if ln.startswith("sig ")), None)
-        if sig:
-            a, b = sig[sig.index("(") + 1 : -1].split("|")
-            if set(x for x in a.split(",") if x) & set(x for x in b.split(",") if x):
-                return "C13-ATTR-INPUT-CLASH"
     if stage == "compile":
-        # (C13-SKIP-INDENT was here: fixed by 4af3eb7 — indented text without make_model is a violation again)
-        if f["collide"]:
-            return "D14"
         return None
     # exec / to_model / signature / run
-    if f["collide"]:
-        return "D14"
-    if opts["rename"] and isM and (ub or f["n_inputs"] > 0):
-        # the signature is never renamed: with any graph input the body and the signature disagree
-        # (a value literally named v<k> can make the text convert and compute something else)
-        return "C13-RENAME-SIG"
     if mprog and any(" forbreak " in ln for ln in mprog):
         return "C13-LOOP-BREAK"
-    if opts["inline_const"] and f["naninf"]:
-        return "C13-NANINF"
-    if opts["inline_const"] and f["emptylist"]:
-        return "C13-EMPTYLIST"
     if opts["inline_const"] and f["inline_nonref"] and ub:
         return "C13-INLINE-DANGLING"
-    if opts["use_operators"] and mprog and not any(" call " in ln for ln in mprog):
-        return "C13-OPS-NO-OPSET"
-    if opts["use_operators"] and opts["inline_const"] and f["pow_neg"]:
-        return "C13-POW-NEG"
     if f["opset_alias"]:
         return "C13-OPSET-NAME"
     if f["dead_if"] and stage in ("exec", "to_model"):
@@ -366,7 +348,7 @@ def tie_cases(ctx: Ctx, cases: list[dict], optlist_of) -> list:
             if case["kind"] == "M":
                 line = L.enc_model(case["proto"], opts, lits)
             else:
-                used = list(OE._names_used_in_function(case["proto"]))
+                used = sorted(OE._names_used_in_function(case["proto"]))
                 line = L.enc_function(case["proto"], opts, lits, used)
             lines.append(line)
             jobs.append((case, opts, lits))
@@ -403,7 +385,7 @@ def tie_cases(ctx: Ctx, cases: list[dict], optlist_of) -> list:
             if mprog:
                 for ln in mprog:
                     parts = ln.split(" ")
-                    ctx.stats["stmt_" + (parts[0] if parts[0] in ("sig", "wrap") else parts[1])] += 1
+                    ctx.stats["stmt_" + (parts[0] if parts[0] in ("sig", "wrap", "deco") else parts[1])] += 1
         res.append((case, opts, src, exc, mprog, mres, lits))
     return res
 
@@ -485,7 +467,7 @@ def _oracle(ctx, case, opts, src, exc, mprog, mres):
         pred = case.get("straight", {}).get(L.opts_str(opts), "0")
         if pred == "bad-op":
             raise core.Infra("driver could not parse a straight line")
-        if pred.startswith("1 ; ") and not case["facts"][L.opts_str(opts)]["collide"]:
+        if pred.startswith("1 ; "):
             # the model is in the fragment of export_roundtrip_partial: the real converter must have read back
             # exactly progToGraph (exportStraight g) (names included)
             st["fragment_cases"] += 1
@@ -506,7 +488,13 @@ def _oracle(ctx, case, opts, src, exc, mprog, mres):
                 st["fragment_reread_ok"] += 1
         # ---- same graph inputs and outputs
         if case["kind"] == "M":
-            want_in = [(py_norm(i.name), L.type_sig(i)) for i in m1.graph.input]
+            sig = next((ln for ln in (mprog or []) if ln.startswith("sig ")), "sig f(|)")
+            sig_names = [x for x in sig[sig.index("(") + 1 : -1].split("|")[0].split(",") if x]
+            # input names: what the exporter printed in the signature (cleaned, uniquified or short names);
+            # distinct inputs must stay distinct
+            if len(set(sig_names)) != len(sig_names) or len(sig_names) != len(m1.graph.input):
+                return fail(ctx, case, opts, "signature", f"signature names {sig_names} for {len(m1.graph.input)} graph inputs", mprog, mres)
+            want_in = [(nm, L.type_sig(i)) for nm, i in zip(sig_names, m1.graph.input)]
             got_in = [(i.name, L.type_sig(i)) for i in m2.graph.input]
             want_out = [L.type_sig(o) for o in m1.graph.output]
             got_out = [L.type_sig(o) for o in m2.graph.output]
@@ -707,6 +695,11 @@ def witnesses() -> list[tuple[str, dict, dict]]:
     w = H.make_tensor("w", TP.INT64, [6], [0, 1, 2, 0, 1, 2])
     m = _mk([H.make_node("Gather", ["x", "w"], ["y"])], [f3], [("y", TP.FLOAT, [6])], inits=[w])
     out.append(("C13-SKIP-RAND", case_of_model(m, [{"x": X}], {"refusal": None, "flags": ["witness"]}), dict(base, skip_initializers=True)))
+    # skip_initializers with a large BFLOAT16 initializer (what 7dcad6a left)
+    w = H.make_tensor("w", TP.BFLOAT16, [6], [1.0, 2.0, 3.0, 1.0, 2.0, 3.0])
+    m = _mk([H.make_node("Cast", ["w"], ["wf"], to=TP.FLOAT), H.make_node("ReduceMax", ["wf"], ["s"], keepdims=0),
+             H.make_node("Add", ["x", "s"], ["y"])], [f3], [y3], inits=[w])
+    out.append(("C13-SKIP-RAND-REST", case_of_model(m, [{"x": X}], {"refusal": None, "flags": ["witness"]}), dict(base, skip_initializers=True)))
     # for loop in a main graph
     body = H.make_graph(
         [H.make_node("Add", ["s_in", "x"], ["s_out"]), H.make_node("Identity", ["c_in"], ["c_out"])], "body",
